@@ -129,7 +129,7 @@ fn shrink_plan(p: &RunPlan) -> Vec<RunPlan> {
         c.world.roots[1] = None;
         out.push(c);
     }
-    if p.world.has_gvar {
+    if p.world.has_gvar && p.world.carrier == 0 {
         let mut c = p.clone();
         c.world.has_gvar = false;
         for pt in c.world.patches.iter_mut() {
